@@ -169,7 +169,9 @@ def work_scripts(pairs):
             S = eng.structures(eng.structure("DS_1", comps))
             script = "r <- DS_1 [calc x := Me_a %s Me_b];" % op if binary else "r <- DS_1 [calc x := %s];" % (tmpl % "Me_a")
         else:
-            S = eng.structures(eng.structure("DS_1", [eng.comp("Id_1", "Integer", "I"), eng.comp("Me_1", l)]), *([eng.structure("DS_2", [eng.comp("Id_1", "Integer", "I"), eng.comp("Me_1", r)])] if binary else []))
+            extra_l = [eng.comp("Id_2", "String", "I")] if level == "dataset_more_ids_left" else []
+            extra_r = [eng.comp("Id_2", "String", "I")] if level == "dataset_more_ids_right" else []
+            S = eng.structures(eng.structure("DS_1", [eng.comp("Id_1", "Integer", "I")] + extra_l + [eng.comp("Me_1", l)]), *([eng.structure("DS_2", [eng.comp("Id_1", "Integer", "I")] + extra_r + [eng.comp("Me_1", r)])] if binary else []))
             script = "r <- DS_1 %s DS_2;" % op if binary else "r <- %s;" % (tmpl % "DS_1")
         exp = doc_accepts(l, r, ttc) if binary else (ttc is None or any(admitted(c, ttc) for c in TABLE[l]))
         case = dict(level=level, op=op, left=l, right=r, script=script, structures=S)
@@ -185,7 +187,9 @@ def work_scripts(pairs):
         if acc != exp:
             part.fail("script:accept:%s:%s:%s:%s" % (level, op, l, r), case, "semantic_analysis %s, documented table says %s" % ("accepts" if acc else "rejects (%s)" % str(err)[:120], "accept" if exp else "reject"))
             continue
-        if acc and rt is not None:
+        want_t = rt if rt is not None else (doc_join(l, r) if binary and doc_join(l, r) is not None and admitted(doc_join(l, r), ttc) else None)
+        if acc and want_t is not None:
+            rt_eff = want_t
             out = res["r"]
             if level == "scalar":
                 got = out.data_type.__name__
@@ -196,23 +200,25 @@ def work_scripts(pairs):
                 got = ms[0].data_type.__name__ if ms else None
             names = {"TimeInterval": "Time", "TimePeriod": "Time_Period"}
             got = names.get(got, got)
-            if got != rt:
-                part.fail("script:result:%s:%s:%s:%s" % (level, op, l, r), case, "result type %s, expected %s" % (got, rt))
+            if got != rt_eff:
+                part.fail("script:result:%s:%s:%s:%s" % (level, op, l, r), case, "result type %s, expected %s" % (got, rt_eff))
     return part
 
 
 def run(ctx):
     ctx.rule = ("EXHAUSTIVE: every ordered pair of the 9 types (8 basic + Null) x every (type_to_check, return_type) combination declared by a Binary operator class, every type x every unary combination "
-                "(direct promotion functions), and every pair of the 8 declarable types x 12 binary / 6 unary representative operators x 3 levels (scalar, component, dataset) through semantic_analysis; "
+                "(direct promotion functions), and every pair of the 8 declarable types x 12 binary / 6 unary representative operators x 5 shapes (scalar, component, dataset with equal identifiers, dataset with more identifiers on the left / right operand) through semantic_analysis; "
                 "every pair is a distinct non-trivial case")
     ctx.exhaustive = True
     n2, n1, nops = part1(ctx.part)
     pairs = []
     decl = [t for t in TYPES if t != "Null"]
-    for level in ("scalar", "component", "dataset"):
+    for level in ("scalar", "component", "dataset", "dataset_more_ids_left", "dataset_more_ids_right"):
         for oi in range(len(BIN_OPS)):
             for l, r in itertools.product(decl, decl):
                 pairs.append((level, oi, l, r))
+        if level.startswith("dataset_more"):
+            continue
         for oi in range(len(UN_OPS)):
             for l in decl:
                 pairs.append((level, oi, l, None))
